@@ -15,7 +15,7 @@ import (
 // was grown.
 
 func init() {
-	register(&Rule{ID: "R08.7", Props: []string{"C08", "C01", "C10"}, Floor: 8,
+	register(&Rule{ID: "R08.7", Props: []string{"C08", "C01", "C10"}, Floor: 3,
 		Doc: "one varint encoder: an internal/encode function that calls compactint.PutReverse* on some path calls it on every path that grows the buffer and returns successfully",
 		Run: runR08_7})
 }
